@@ -77,12 +77,15 @@ Fixpoint remove (r : refmap) (n : nat) : refmap :=
 Definition ref_acceptable (s : store) (remote : refmap) (n : nat) (c : cid) : bool :=
   match lookup remote n with None => true | Some old => anc s old c end.
 
-(* git push --all --atomic [--prune]: all local heads, all or nothing *)
-Definition push_all_atomic (s : store) (remote local : refmap) (prune : bool) : option refmap :=
-  if forallb (fun kv => ref_acceptable s remote (fst kv) (snd kv)) local then
-    let kept := if prune then filter (fun kv => match lookup local (fst kv) with Some _ => true | None => false end) remote
-                else remote in
-    Some (fold_left (fun r kv => update r (fst kv) (snd kv)) local kept)
+(* `git push --atomic origin 'refs/heads/*:refs/heads/*' :refs/heads/d1 :refs/heads/d2 ...` (lib/git.py
+   push_all): every local head plus the explicit deletion of the branches this clone removed itself; all or
+   nothing.  A deletion of a ref the remote does not have makes the push fail.  With [deleted] = [] this is
+   `git push --all --atomic`. *)
+Definition push_all_atomic (s : store) (remote local : refmap) (deleted : list nat) : option refmap :=
+  if forallb (fun kv => ref_acceptable s remote (fst kv) (snd kv)) local
+     && forallb (fun n => match lookup remote n with Some _ => true | None => false end) deleted then
+    Some (fold_left (fun r kv => update r (fst kv) (snd kv)) local
+            (filter (fun kv => negb (mem (fst kv) deleted)) remote))
   else None.
 
 (* git push origin a b ...: each named ref independently *)
